@@ -68,7 +68,7 @@ CLAIMS = {
          "after a re-registration every record and pair containing the denom carries the new decimals in the denom's position, all else unchanged, nothing moved (defect D4 repaired). "
          "Correspondence + oracle: world family factory with up to 47 pairs.", "§6 C17, §7 D4", "Lean 4 proof (invariant by induction over the registry fold) + differential correspondence on cw-multi-test"),
  "C20": ("Lean theorems: in any world where the pair is well-formed, a holder can withdraw any amount up to its balance whose entitlement is at least r_i/1e18 + 2 of each asset: the transaction succeeds (each step of the handler is shown to succeed), "
-         "with refunds ≥ 2; the supply bound it needs is cw20 conservation in inductive list-sum form, proved preserved by every operation; C20W: the same after any history of external actors' operations on a pair satisfying the invariant, and from the pair's creation on. "
+         "with refunds ≥ 2; the supply bound it needs is cw20 conservation in inductive list-sum form, proved preserved by every operation; C20W: the same after any history of external actors' operations on a pair satisfying the invariant, and from the pair's creation on; C20B: the 128-bit bounds it needs are invariants (cw20 supplies and balances, circulating native totals), so only the initial ledger is constrained. "
          "Correspondence + oracle: world families inject withdrawals after arbitrary prefixes and the oracle demands success whenever the entitlement condition holds in the observed state.",
          "§6 C20", "Lean 4 proof (liveness: every step of the withdrawal succeeds under an inductive invariant) + differential correspondence on cw-multi-test"),
  "C15": ("Lean theorems: soundness and completeness of assert_slippage_tolerance, >100% always rejected, no abort on positive 128-bit inputs. "
